@@ -76,7 +76,7 @@ def run_config(run, prop, name, consts, wd, seed, vertex_cls="mixed", caching=Fa
                           f"{r['kind']} rendering of members {r['M']} violates {'+'.join(sorted(v['fail']))}",
                           {"kind": "render", "config": name, "consts": {k: (sorted(x) if isinstance(x, set) else x) for k, x in consts.items()},
                            "vertex_cls": vertex_cls, "path": r["path"],
-                           "probe": {k: r[k] for k in r if k in ("kind", "M", "sorted", "default_repr", "rank", "style", "variant", "title_tag", "customizable", "extra_attr")},
+                           "probe": {k: r[k] for k in r if k in ("kind", "M", "sorted", "default_repr", "rank", "style", "variant", "title_tag", "customizable", "extra_attr", "grown")},
                            "state": r["S"], "observed": r["res"], "text": r.get("text"), "fail": v["fail"], "expected": v.get("exp")})
         for r in recs:
             run.count_class(RX.render_class(r))
@@ -112,7 +112,12 @@ def replay(prop, path, wd):
         r = RX.plain_probe(w, S, p["M"], p["sorted"], p["default_repr"], 0, style=p.get("style", 0))
         r["rank"] = p["rank"]
     elif p["kind"] == "puml":
-        r = RX.puml_probe(w, S, p["M"], p["variant"], p["title_tag"])
+        if p.get("grown"):
+            table = {"opts": {}, "hist": []}
+            for variant, tag in p["grown"]:
+                r = RX.puml_probe(w, S, p["M"], variant, tag, table)
+        else:
+            r = RX.puml_probe(w, S, p["M"], p["variant"], p["title_tag"])
     else:
         r = RX.pyvis_probe(w, S, p["M"], p["customizable"], True, p["extra_attr"])
     r["id"] = 1
